@@ -13,6 +13,8 @@ LEVEL = "exploration"
 MOD = "C03"
 SITE_EXEMPT = {}     # evaluation sites this check cannot reach (site -> reason); see solvex.site_floor
 EXIT_EXEMPT = {}     # exit sites this check cannot reach; see solvex.exit_floor
+SAVE_EXEMPT = {"soft_restart#0": "dead code on the pinned tree: every caller passes x_in_abs_coords_to_save=None",
+               "initialise_coordinate_directions#1": "dead code: solve() rejects init.run_in_parallel without random directions"}
 
 BOX = {"lo": [-1.5, -0.5], "hi": [0.9, 1.7]}
 MODES = {
@@ -94,6 +96,12 @@ def _configs(tier, salts):
         # geometries whose trust-region step can increase the model, every single deviation with 'best' / 'x0.3'
         if salt == 0 or (tier == "thorough" and salt == 1):
             out += cfgs.tr_increase_cfgs(salt, restarts=("none", "hard_new", "soft"))
+        # every budget for the momentum extra steps (the budget must end exactly inside one for its save site to be reached)
+        if salt == 0 or (tier == "thorough" and salt == 1):
+            for name, cfg in cfgs.broad_cfgs(salt=salt, budgets=tuple(range(6, 41)), probs=("rosen",), overlays=("avg",)):
+                # (a point is saved there only if the exit comes after at least one sample: averaging, budget ending mid-point)
+                if name in ("reg_momentum", "reg_momentum_bounds", "reg_momentum+avg", "reg_momentum_bounds+avg"):
+                    out.append((cfg, {"depth": 0}))
         # the broad option bank (every documented parameter at a non-default value somewhere)
         if salt == 0 or (tier == "thorough" and salt == 1):
             for name, cfg in cfgs.broad_cfgs(salt=salt, budgets=(7, 25, 60) if tier == "quick" else (4, 7, 13, 25, 40, 60, 120),
@@ -118,6 +126,7 @@ def run(report, tier, seed):
     res = solvex.explore(report, MOD, cps, classify=classify)
     solvex.site_floor(report, res["tags"], exempt=SITE_EXEMPT)
     solvex.exit_floor(report, res["tags"], exempt=EXIT_EXEMPT)
+    solvex.save_floor(report, res["tags"], exempt=SAVE_EXEMPT)
     tags = res["tags"]
     cov = report.coverage
     exits = [t for t in tags if t.startswith("exit:")]
